@@ -389,25 +389,32 @@ class Builder:
                 self.emit(self.quote("World"))
         elif form in ("t-ctx", "pgettext"):
             self.emit(":" + self.ws())
+            if form == "t-ctx" and self.lay.chance(0.25):
+                # a message variable as keyword argument in front of the positional context
+                self.emit("you:" + self.ws() + self.quote("World"))
+                sep()
             site["context"] = lit("c")
         elif form in ("t-dynctx", "pgettext-dynctx"):
             self.emit(":" + self.ws())
             dyn("x")
         elif form in ("t-plural", "t-ctx-plural", "t-dynplural"):
             self.emit(":" + self.ws())
-            if form == "t-ctx-plural":
-                site["context"] = lit("c")
-                sep()
             order = self.lay.pick(["pc", "pc", "cp"])
             how = count_how or self.ch.pick(["var", "var", "lit", "str", "none", "nil"])
             if how == "none" and "count-nil" in self.disabled:
                 how = "var"
             if how == "none":
                 order = "p"
+            if form == "t-ctx-plural":
+                # the message context is the positional argument, wherever it stands among the keyword ones
+                at = self.lay.pick([0, 0, 0, 1, len(order)])
+                order = order[:at] + "x" + order[at:]
             for i, part in enumerate(order):
                 if i:
                     sep()
-                if part == "p":
+                if part == "x":
+                    site["context"] = lit("c")
+                elif part == "p":
                     self.emit("plural:" + self.ws())
                     if form == "t-dynplural":
                         dyn("y")
